@@ -464,7 +464,7 @@ func c19Unit(c *RunCtx, unit int) {
 func init() {
 	register(&Check{
 		ID: "C19", Level: "exploration",
-		Rule:  "per unit 40 POST /register requests through the real stack with field maps containing duplicates (form: first wins, JSON: last wins), missing fields, mismatched/absent confirm field, hostile extra fields (confirmed, locked, oauth2_uid, Password, totp_secret_key, name, role, ...), identifiers that exist / are blank / malformed, passwords on both sides of every default minimum and of bcrypt's 72-byte limit; register whitelists with 0-2 extra application fields; with and without the confirm module; form and JSON; registering browser anonymous or logged in. Oracle from the statement: refused (invalid by an independent evaluator / existing id / unhashable) => storage byte-identical and session user unchanged; else exactly one record whose password bcrypt-verifies the submitted one, PutArbitrary saw only whitelisted keys, every other stored field is at its zero value, logged in iff confirm is not loaded, else exactly one confirmation mail to that address. Plus a differential sweep of defaults.Rules.IsValid/Errors against an independent evaluator over generated rule settings x generated ASCII strings incl. strings exactly at / one below / one beyond the minima. In a third of the units the user type keeps its e-mail address apart from the primary identifier (a username site: new accounts have none yet); in half, the application appended rules of its own to the shipped rulesets. Every fifth form registration sends password and confirmation in the query string of the form's action URL and the rest in the body. distinct_nontrivial = distinct request signatures + policy signatures.",
+		Rule:  "per unit 40 POST /register requests through the real stack with field maps containing duplicates (form: first wins, JSON: last wins), missing fields, mismatched/absent confirm field, hostile extra fields (confirmed, locked, oauth2_uid, Password, totp_secret_key, name, role, ...), identifiers that exist / are blank / malformed, passwords on both sides of every default minimum and of bcrypt's 72-byte limit; register whitelists with 0-2 extra application fields; with and without the confirm module; form and JSON; registering browser anonymous or logged in. Oracle from the statement: refused (invalid by an independent evaluator / existing id / unhashable) => storage byte-identical and session user unchanged; else exactly one record whose password bcrypt-verifies the submitted one, PutArbitrary saw only whitelisted keys, every other stored field is at its zero value, logged in iff confirm is not loaded, else exactly one confirmation mail to that address. Plus a differential sweep of defaults.Rules.IsValid/Errors against an independent evaluator over generated rule settings x generated ASCII strings incl. strings exactly at / one below / one beyond the minima. In a third of the units the user type keeps its e-mail address apart from the primary identifier (a username site: new accounts have none yet); in half, the application appended rules of its own to the shipped rulesets. Every fifth form registration sends password and confirmation in the query string of the form's action URL and the rest in the body. Half of the units run behind an application pre-loader (ab.LoadCurrentUser / ab.CurrentUser before the routes): a logged-in requester registering a new identifier leaves every existing account untouched. distinct_nontrivial = distinct request signatures + policy signatures.",
 		Units: func(t string) int { return tierN(t, 64, 3000) },
 		Run:   c19Unit,
 		Floors: func(t string) map[string]int {
